@@ -55,7 +55,7 @@ def required_counters(tier):
         "nested_unhooked_inside_hooked": 30,
         "nested_hooked_inside_unhooked": 10,
         "pyc_files_created": 200,
-        "runs_with_cache_present": 100, "runs_with_failing_hooked_import": 20, "runs_read_only_cache": 20,
+        "runs_with_cache_present": 100, "runs_with_failing_hooked_import": 20, "runs_read_only_cache": 20, "runs_with_checking_disabled": 15, "source_edits.same_mtime_other_size": 10,
     }
 
 
@@ -77,14 +77,20 @@ def mod_path(root, mods, m):
     return os.path.join(root, *parts[:-1], parts[-1] + ".py")
 
 
-def set_version(root, mods, m, v, bump=True):
+def set_version(root, mods, m, v, bump=True, same_mtime=False):
+    """rewrite the module with a new VERSION constant. bump: mtime +2 s (size may stay equal);
+    same_mtime: the mtime is put back to its old value but the SIZE changes (cp -p / tar extraction)"""
     p = mod_path(root, mods, m)
     src = open(p).read()
     lines = [l for l in src.splitlines() if not l.startswith("VERSION = ")]
     st = os.stat(p)
+    pad = "  # " + "x" * (v % 7 + 1) if same_mtime else ""
     with open(p, "w") as f:
-        f.write("\n".join(lines) + f"\nVERSION = {v}\n")
-    if bump:
+        f.write("\n".join(lines) + f"\nVERSION = {v}{pad}\n")
+    if same_mtime:
+        os.utime(p, ns=(st.st_atime_ns, st.st_mtime_ns))
+        assert os.stat(p).st_size != st.st_size
+    elif bump:
         os.utime(p, (st.st_atime, st.st_mtime + 2))
     else:
         os.utime(p, (st.st_atime, st.st_mtime - 10))
@@ -150,9 +156,12 @@ def run_history(rec, rng, key):
             if ri > 0 and rng.random() < 0.35:
                 m = rng.choice(names)
                 versions[m] += 1
-                set_version(root, mods, m, versions[m])
-                edited.append(m)
+                same_mtime = rng.random() < 0.4
+                set_version(root, mods, m, versions[m], same_mtime=same_mtime)
+                edited.append(m + (" (same mtime, other size)" if same_mtime else ""))
                 rec.count("source_edits")
+                if same_mtime:
+                    rec.count("source_edits.same_mtime_other_size")
             ops = gen_run(rng, mods)
             if any(o["op"] == "import_failing" for o in ops):
                 rec.count("runs_with_failing_hooked_import")
@@ -163,6 +172,12 @@ def run_history(rec, rng, key):
             nowrite = ri > 0 and rng.random() < 0.25
             if nowrite:
                 rec.count("runs_read_only_cache")
+            # some runs have checking switched off in the environment: decoration still happens, calls pass through
+            disabled = rng.random() < 0.15
+            env.pop("JAXTYPING_DISABLE", None)
+            if disabled:
+                env["JAXTYPING_DISABLE"] = "1"
+                rec.count("runs_with_checking_disabled")
             env["PYTHONPYCACHEPREFIX"] = ""
             env.pop("PYTHONPYCACHEPREFIX", None)
             spec = {"root": root, "ops": ops, "mode": "api", "extra": None}
@@ -177,7 +192,7 @@ def run_history(rec, rng, key):
             rec.count("pyc_files_created", len(created))
             if before:
                 rec.count("runs_with_cache_present")
-            history.append({"run": ri, "ops": ops, "edited": edited, "read_only_cache": nowrite, "pyc_created": created[:12]})
+            history.append({"run": ri, "ops": ops, "edited": edited, "read_only_cache": nowrite, "JAXTYPING_DISABLE": disabled, "pyc_created": created[:12]})
             case = {"rngkey": key, "forest": mods, "history": history}
             if "error" in out:
                 rec.inconclusive.append("run failed: " + out["error"])
@@ -210,6 +225,8 @@ def run_history(rec, rng, key):
                     ok = not got["wrapped"] and not got["spies"] and got["ill_typed"] == "ran"
                 elif want == "none-checker":
                     ok = got["wrapped"] and not got["spies"] and got["ill_typed"] == "ran"
+                elif disabled:
+                    ok = got["wrapped"] and set(got["spies"]) == {want} and got["ill_typed"] == "ran"
                 else:
                     ok = got["wrapped"] and set(got["spies"]) == {want} and got["ill_typed"] == "TypeCheckError"
                 if not ok:
